@@ -215,7 +215,7 @@ func RunWorker(e Engine, tier string, batch uint64, lo, hi, stride int, deadline
 					for j := lo; j < idx; j += stride {
 						before = append(before, j)
 					}
-					min, r2 = isolatedWithPrelude(s, sig, bitmapPath+".cand.json", &Prelude{Batch: batch, Tier: tier, Indices: before})
+					min, r2 = isolatedWithPrelude(s, sig, bitmapPath+".cand.json", &Prelude{Batch: batch, Tier: tier, Indices: before, First: lo, Stride: stride})
 					if min != nil {
 						out.Extra["violations_needing_a_prelude_of_earlier_runs"]++
 					}
@@ -503,7 +503,7 @@ func RunCheck(o CheckOptions) int {
 				before = append(before, j)
 			}
 			before = append(before, d.idx) // (the worker may have been executing it for the second time: determinism recheck)
-			min = deathWithPrelude(o.Exe, s, sig, filepath.Join(workDir, "death.json"), hangTimeoutOf(e), &Prelude{Batch: o.Seed, Tier: o.Tier, Indices: before})
+			min = deathWithPrelude(o.Exe, s, sig, filepath.Join(workDir, "death.json"), hangTimeoutOf(e), &Prelude{Batch: o.Seed, Tier: o.Tier, Indices: before, First: d.worker, Stride: d.stride})
 			if min != nil {
 				tot.Extra["violations_needing_a_prelude_of_earlier_runs"]++
 			}
@@ -673,7 +673,7 @@ func RunReplay(path string, verbose bool) int {
 		return 3
 	}
 	RunPrelude(e, s, func(p *Script) { e.Exec(p, false) })
-	res := e.Exec(s, true)
+	res := e.Exec(s, verbose) // (the log lines are kept only when they are asked for: a worker does not keep them either)
 	if verbose {
 		for _, l := range res.Log {
 			fmt.Println("  log:", l)
